@@ -313,6 +313,7 @@ def execute(case, stats, log):
     dropped = set()
     blobs = {}
     mutated = set()
+    disturbed = [False]
 
     def opaque(var):
         o = m.origin.get(var)
@@ -366,7 +367,13 @@ def execute(case, stats, log):
                 x = m.pool[v]
                 o = m.origin.get(v)
                 # rebuilding is only "the same program" if nothing was dropped and re-created in between
-                it = {"var": o, "rebuild": bool(o in m.by_out and not opaque(v) and v == o and v not in mutated and not dropped)}
+                # names of PARENTS of random arrays capture the generator object's state when the parent is first
+                # tokenized, and which generator object a random node holds depends on whether the singleton
+                # registry handed back an older instance: after an evict/gc the verifier (which replays builds,
+                # not evictions) would not be building "the same program" any more (DESIGN 6.3, unclaimed)
+                same_program = not (disturbed[0] and o in m.by_out and _has_random(recipe, o))
+                it = {"var": o, "rebuild": bool(o in m.by_out and not opaque(v) and v == o and v not in mutated and not dropped
+                                                and same_program)}
                 try:
                     it["blob"] = base64.b64encode(cloudpickle.dumps(x)).decode()
                 except Exception as e:  # noqa: BLE001
@@ -423,6 +430,8 @@ def execute(case, stats, log):
             continue
         if kind == "drop":
             dropped.add(var)
+        if kind in ("drop", "gc", "evict"):
+            disturbed[0] = True
         if kind == "build":
             builds.append({"var": var, "force": ev.get("force", False)})
             x = out["x"]
